@@ -127,7 +127,7 @@ func ruleMetadataHops(c *Ctx, rule string) {
 	}
 	ns := p.envelopeIn("goat.ClientConn.newStream")
 	if ns.HFields == nil || len(ns.HFields["Headers"].Stores) != 1 {
-		c.check(rule, "newStream:request-headers", false, "open envelope has no Headers store", p.ipos(ns.Alloc))
+		c.check(rule, "newStream:request-headers", false, "open envelope has no Headers store", p.ipos(ns.At()))
 	} else {
 		hop("newStream:request-headers", ns.HFields["Headers"].Stores[0].Val, ns.Alloc, "call(goat.headersFromContext,_)")
 	}
@@ -171,7 +171,7 @@ func ruleMetadataHops(c *Ctx, rule string) {
 		env := p.envelopeIn(fk)
 		hs := env.HFields["Headers"].Stores
 		if len(hs) != 1 {
-			c.check(rule, fk+":response-headers", false, "no single Headers store", p.ipos(env.Alloc))
+			c.check(rule, fk+":response-headers", false, "no single Headers store", p.ipos(env.At()))
 			continue
 		}
 		cl, ok := hs[0].Val.(*ssa.Call)
@@ -189,7 +189,7 @@ func ruleMetadataHops(c *Ctx, rule string) {
 			}
 		}
 	}
-	c.check(rule, "SendTrailer:trailer-metadata", okT, "stream trailer metadata is ToKeyValue(accumulated trailers...)", p.ipos(tenv.Alloc))
+	c.check(rule, "SendTrailer:trailer-metadata", okT, "stream trailer metadata is ToKeyValue(accumulated trailers...)", p.ipos(tenv.At()))
 	// 4. unary reply headers / trailers from the transport stream installed in the handler context
 	pu := p.MustFn("goat.handler.processUnaryRpc")
 	uenv := p.envelopeIn("goat.handler.processUnaryRpc")
@@ -209,7 +209,7 @@ func ruleMetadataHops(c *Ctx, rule string) {
 			okSts = true
 		}
 	}
-	c.check(rule, "processUnaryRpc:reply-headers-object", okSts, "the headers sent are those collected by the object installed in the handler context ("+stsO+")", p.ipos(uenv.Alloc))
+	c.check(rule, "processUnaryRpc:reply-headers-object", okSts, "the headers sent are those collected by the object installed in the handler context ("+stsO+")", p.ipos(uenv.At()))
 	okTr := false
 	for _, t := range uenv.Fields["Trailer"].Origins {
 		if al, ok := e.allocs[t.Name].(*ssa.Alloc); ok {
@@ -223,7 +223,7 @@ func ruleMetadataHops(c *Ctx, rule string) {
 			}
 		}
 	}
-	c.check(rule, "processUnaryRpc:reply-trailers", okTr, "reply trailer metadata is ToKeyValue(sts.GetTrailers()) of the installed object", p.ipos(uenv.Alloc))
+	c.check(rule, "processUnaryRpc:reply-trailers", okTr, "reply trailer metadata is ToKeyValue(sts.GetTrailers()) of the installed object", p.ipos(uenv.At()))
 	// 5. client Header() / Trailer()
 	rl := p.MustFn("client.clientStream.readLoop")
 	_, rpc := p.readResult(rl)
@@ -279,7 +279,7 @@ func ruleHeaderTypestate(c *Ctx, rule string) {
 		env := p.envelopeIn(fk)
 		hs := env.HFields["Headers"].Stores
 		if len(hs) != 1 {
-			c.check(rule, fk+":headers-once", false, "expected one conditional Headers store", p.ipos(env.Alloc))
+			c.check(rule, fk+":headers-once", false, "expected one conditional Headers store", p.ipos(env.At()))
 			continue
 		}
 		fs := p.Facts(hs[0])
